@@ -10,7 +10,7 @@ C09 — termination of the loops of the code model of `SnfCalc` over ℤ (`snf_t
 -/
 namespace Yuiv.C09
 open Yuiv
-variable {m n : Nat}
+variable {m n : Nat} {α : Type}
 
 /-! ### the `for` loops and the primitives never report fuel exhaustion -/
 
@@ -252,5 +252,160 @@ theorem diagOuter_terminates (dbg : Bool) (r : Nat) : ∀ (fuel : Nat) (s : St I
     · cases h
     · rename_i h1
       exact diagPass_ne_err_of dbg r (diagNormalizeStep_ne_err intOps dbg) _ _ _ h1
+
+/-! ### fuel monotonicity: more fuel does not change a result other than fuel exhaustion -/
+
+theorem eliminateAt_mono (e : EOps α) (dbg : Bool) (i : Fin m) (jc : Fin n) : ∀ (fuel : Nat) (s : St α m n),
+    eliminateAt e dbg i jc fuel s ≠ .err → ∀ fuel', fuel ≤ fuel' →
+      eliminateAt e dbg i jc fuel' s = eliminateAt e dbg i jc fuel s := by
+  intro fuel
+  induction fuel with
+  | zero => intro s h; simp [eliminateAt] at h
+  | succ fuel ih =>
+    intro s h fuel' hle
+    obtain ⟨f', rfl⟩ : ∃ f', fuel' = f' + 1 := ⟨fuel' - 1, by omega⟩
+    rw [eliminateAt] at h
+    rw [eliminateAt, eliminateAt]
+    split
+    · rename_i hc
+      rw [if_pos hc] at h
+      split
+      · split
+        · split
+          · rfl
+          · rename_i r1 h1 _ r2 h2 hb
+            rw [h1] at h; simp only at h
+            rw [h2] at h; simp only at h
+            rw [if_neg hb] at h
+            exact ih _ h _ (by omega)
+        · rfl
+        · rfl
+      · rfl
+      · rfl
+    · rfl
+
+
+theorem sMulCol_ne_err (e : EOps α) (s : St α m n) (j : Fin n) (u : α) : sMulCol e s j u ≠ .err := by
+  unfold sMulCol; split <;> simp
+
+theorem sMulRow_ne_err (e : EOps α) (s : St α m n) (i : Fin m) (u : α) : sMulRow e s i u ≠ .err := by
+  unfold sMulRow; split <;> simp
+
+theorem eliminateStep_mono (e : EOps α) (dbg : Bool) (s : St α m n) (i : Fin m) (j : Fin n) (hi : i.1 < n)
+    (fuel : Nat) (h : eliminateStep e dbg fuel s i j hi ≠ .err) (fuel' : Nat) (hle : fuel ≤ fuel') :
+    eliminateStep e dbg fuel' s i j hi = eliminateStep e dbg fuel s i j hi := by
+  unfold eliminateStep at h ⊢
+  split
+  · rfl
+  · rename_i ip hsel
+    rw [hsel] at h
+    simp only at h ⊢
+    split
+    · split
+      · rfl
+      · rename_i s2 h2 hz
+        rw [h2] at h; simp only at h
+        rw [if_neg hz] at h
+        have hne : eliminateAt e dbg i ⟨i.1, hi⟩ fuel s2 ≠ .err := by
+          intro hh; rw [hh] at h; exact h rfl
+        rw [eliminateAt_mono e dbg i ⟨i.1, hi⟩ fuel s2 hne fuel' hle]
+    · rfl
+    · rfl
+
+theorem eliminateAllStep_mono (e : EOps α) (dbg : Bool) (fuel : Nat) (si : St α m n × Nat) (j : Fin n)
+    (h : eliminateAllStep e dbg fuel si j ≠ .err) (fuel' : Nat) (hle : fuel ≤ fuel') :
+    eliminateAllStep e dbg fuel' si j = eliminateAllStep e dbg fuel si j := by
+  unfold eliminateAllStep at h ⊢
+  split
+  · rename_i hc
+    rw [dif_pos hc] at h
+    have hne : eliminateStep e dbg fuel si.1 ⟨si.2, hc.1⟩ j (Nat.lt_of_le_of_lt hc.2 j.2) ≠ .err := by
+      intro hh; rw [hh] at h; exact h rfl
+    rw [eliminateStep_mono e dbg si.1 ⟨si.2, hc.1⟩ j _ fuel hne fuel' hle]
+  · rfl
+
+theorem foldlM_fuel_mono {σ β : Type} (f : Nat → σ → β → Res σ)
+    (hmono : ∀ fuel s x, f fuel s x ≠ .err → ∀ fuel', fuel ≤ fuel' → f fuel' s x = f fuel s x) :
+    ∀ (l : List β) (fuel : Nat) (s : σ), l.foldlM (f fuel) s ≠ .err → ∀ fuel', fuel ≤ fuel' →
+      l.foldlM (f fuel') s = l.foldlM (f fuel) s
+  | [], _, _, _, _, _ => rfl
+  | x :: l, fuel, s, h, fuel', hle => by
+    rw [List.foldlM_cons] at h ⊢
+    rw [List.foldlM_cons]
+    cases hx : f fuel s x with
+    | ok y =>
+      rw [hx] at h
+      rw [hmono fuel s x (by rw [hx]; simp) fuel' hle, hx]
+      exact foldlM_fuel_mono f hmono l fuel y h fuel' hle
+    | panic => rw [hmono fuel s x (by rw [hx]; simp) fuel' hle, hx]; rfl
+    | err => rw [hx] at h; exact absurd rfl h
+
+theorem eliminateAll_mono (e : EOps α) (dbg : Bool) (fuel : Nat) (s : St α m n)
+    (h : eliminateAll e dbg fuel s ≠ .err) (fuel' : Nat) (hle : fuel ≤ fuel') :
+    eliminateAll e dbg fuel' s = eliminateAll e dbg fuel s := by
+  unfold eliminateAll at h ⊢
+  have hne : (List.finRange n).foldlM (eliminateAllStep e dbg fuel) (s, 0) ≠ .err := by
+    intro hh; rw [hh] at h; exact h rfl
+  rw [foldlM_fuel_mono (fun fuel => eliminateAllStep e dbg fuel)
+    (fun fuel si j hh fuel' hle => eliminateAllStep_mono e dbg fuel si j hh fuel' hle) _ fuel (s, 0) hne fuel' hle]
+
+theorem diagOuter_mono (e : EOps α) (dbg : Bool) (r : Nat) : ∀ (fuel : Nat) (s : St α m n),
+    diagOuter e dbg r fuel s ≠ .err → ∀ fuel', fuel ≤ fuel' → diagOuter e dbg r fuel' s = diagOuter e dbg r fuel s := by
+  intro fuel
+  induction fuel with
+  | zero => intro s h; simp [diagOuter] at h
+  | succ fuel ih =>
+    intro s h fuel' hle
+    obtain ⟨f', rfl⟩ : ∃ f', fuel' = f' + 1 := ⟨fuel' - 1, by omega⟩
+    rw [diagOuter] at h
+    rw [diagOuter, diagOuter]
+    split
+    · split
+      · rfl
+      · rename_i r1 h1 hb
+        rw [h1] at h; simp only at h
+        rw [if_neg hb] at h
+        exact ih _ h _ (by omega)
+    · rfl
+    · rfl
+
+theorem diagNormalize_mono (e : EOps α) (dbg : Bool) (fuel : Nat) (s : St α m n)
+    (h : diagNormalize e dbg fuel s ≠ .err) (fuel' : Nat) (hle : fuel ≤ fuel') :
+    diagNormalize e dbg fuel' s = diagNormalize e dbg fuel s := by
+  unfold diagNormalize at h ⊢
+  split
+  · rfl
+  · rename_i hc
+    rw [if_neg hc] at h
+    split
+    · rfl
+    · rename_i hz
+      rw [if_neg hz] at h
+      have hne : diagOuter e dbg (firstZeroDiag e s.t) fuel s ≠ .err := by
+        intro hh; rw [hh] at h; exact h rfl
+      rw [diagOuter_mono e dbg _ fuel s hne fuel' hle]
+
+theorem snfCalc_mono (e : EOps α) (dbg : Bool) (pre : St α m n → Res (St α m n)) (fuel : Nat) (A : Mat α m n)
+    (h : snfCalc e dbg pre fuel A ≠ .err) (fuel' : Nat) (hle : fuel ≤ fuel') :
+    snfCalc e dbg pre fuel' A = snfCalc e dbg pre fuel A := by
+  unfold snfCalc at h ⊢
+  split
+  · rfl
+  · rename_i hz
+    rw [if_neg hz] at h
+    split
+    · rename_i s1 h1
+      rw [h1] at h; simp only at h
+      have hne : eliminateAll e dbg fuel s1 ≠ .err := by
+        intro hh; rw [hh] at h; exact h rfl
+      rw [eliminateAll_mono e dbg fuel s1 hne fuel' hle]
+      split
+      · rename_i s2 h2
+        rw [h2] at h; simp only at h
+        exact diagNormalize_mono e dbg fuel s2 h fuel' hle
+      · rfl
+      · rfl
+    · rfl
+    · rfl
 
 end Yuiv.C09
